@@ -132,7 +132,7 @@ def run_plan(plan):
                       net_kwargs=dict(mss=plan.get("mss", 1460), latency=plan.get("latency", 0.001),
                                       jitter=plan.get("jitter", 0.0)))
     if res is None:
-        return {"inconclusive": info.get("deadlock") or info.get("error"), "trace": info.get("trace", "")}
+        return W.failed(info)
     if res.get("inconclusive"):
         return res
     h = info["hygiene"]
